@@ -7,6 +7,8 @@ package main
 
 import (
 	"fmt"
+	"os"
+	"sync/atomic"
 	"go/constant"
 	"go/token"
 	"go/types"
@@ -100,6 +102,7 @@ type Exec struct {
 	threads   *threadCtx // non-nil in concurrent mode
 	funcsSeen map[*ssa.Function]bool
 	varSubst  map[string]*Term
+	termSubst map[int]*Term
 	rwMemo    map[int]*Term
 
 	// counters (per worker, cumulative)
@@ -155,6 +158,12 @@ func (ex *Exec) noteEq(c *Term) {
 }
 
 func (ex *Exec) bindConst(a *Term, v uint64) {
+	if a.Op != OpVar && a.Op != OpConst {
+		if _, ok := ex.termSubst[a.ID]; !ok {
+			ex.termSubst[a.ID] = ex.tt.Const(a.W, v)
+			ex.rwMemo = nil
+		}
+	}
 	switch a.Op {
 	case OpVar:
 		if _, ok := ex.varSubst[a.Name]; !ok {
@@ -174,7 +183,7 @@ func (ex *Exec) bindConst(a *Term, v uint64) {
 
 // rw substitutes the variables fixed by the path condition (bottom-up rebuild).
 func (ex *Exec) rw(t *Term) *Term {
-	if len(ex.varSubst) == 0 || t.IsConst() {
+	if (len(ex.varSubst) == 0 && len(ex.termSubst) == 0) || t.IsConst() {
 		return t
 	}
 	if ex.rwMemo == nil {
@@ -184,7 +193,9 @@ func (ex *Exec) rw(t *Term) *Term {
 		return r
 	}
 	var r *Term
-	if t.Op == OpVar {
+	if c, ok := ex.termSubst[t.ID]; ok {
+		r = c
+	} else if t.Op == OpVar {
 		if c, ok := ex.varSubst[t.Name]; ok {
 			r = c
 		} else {
@@ -273,7 +284,7 @@ func (ex *Exec) rebuild(t *Term, a []*Term) *Term {
 }
 
 func (ex *Exec) rwSlice(s *SliceVal) *SliceVal {
-	if len(ex.varSubst) == 0 || (s.Off.IsConst() && s.Len.IsConst() && s.Cap.IsConst()) {
+	if (len(ex.varSubst) == 0 && len(ex.termSubst) == 0) || (s.Off.IsConst() && s.Len.IsConst() && s.Cap.IsConst()) {
 		return s
 	}
 	o, l, c := ex.rw(s.Off), ex.rw(s.Len), ex.rw(s.Cap)
@@ -479,8 +490,43 @@ func (ex *Exec) branch(c *Term) bool {
 		ex.record(2)
 		return false
 	}
+	if ex.cfg.Debug {
+		ex.dumpDead(c)
+	}
 	ex.abort(abortDead, "both branch sides infeasible")
 	return false
+}
+
+var deadDumps int32
+
+// dumpDead locates the conjunct that made the path condition infeasible.
+func (ex *Exec) dumpDead(c *Term) {
+	if atomic.AddInt32(&deadDumps, 1) > 3 {
+		return
+	}
+	full := ex.pc
+	lo := -1
+	for i := 0; i <= len(full); i++ {
+		p := NewSMTPrinter()
+		for _, x := range full[:i] {
+			p.Assert(x)
+		}
+		res, _, _ := ex.solver.Check(p.String(), nil)
+		if res != Sat {
+			lo = i
+			break
+		}
+	}
+	fmt.Printf("DEAD-DEBUG: branch cond %s\n  pc has %d conjuncts; first unsat prefix length %d\n", TermString(c, 6), len(full), lo)
+	if lo > 0 {
+		fmt.Printf("  culprit conjunct: %s\n", TermString(full[lo-1], 8))
+		p := NewSMTPrinter()
+		for _, x := range full[:lo] {
+			p.Assert(x)
+		}
+		os.WriteFile(fmt.Sprintf("/verif/.work/dead-%d.smt2", deadDumps), []byte(p.String()+"(check-sat)\n"), 0o644)
+	}
+	fmt.Printf("  where: %s decisions=%v\n", ex.where(), ex.decisions)
 }
 
 // assume adds c to the pc; the path dies if that is infeasible.
@@ -703,7 +749,7 @@ func (ex *Exec) cellRead(o *Object, off *Term) Value {
 		if off.Val >= uint64(len(o.Cells)) {
 			ex.unsupported("internal: cell read out of object (%d of %d)", off.Val, len(o.Cells))
 		}
-		if len(ex.varSubst) != 0 {
+		if len(ex.varSubst) != 0 || len(ex.termSubst) != 0 {
 			return ex.rwValue(o.Cells[off.Val])
 		}
 		return o.Cells[off.Val]
@@ -900,7 +946,7 @@ func (ex *Exec) get(fr *frame, v ssa.Value) Value {
 	if !ok {
 		ex.unsupported("internal: no value for %s (%T)", v.Name(), v)
 	}
-	if len(ex.varSubst) != 0 {
+	if len(ex.varSubst) != 0 || len(ex.termSubst) != 0 {
 		return ex.rwValue(r)
 	}
 	return r
